@@ -281,12 +281,18 @@ impl Property for C12 {
         if mon.want_sample() && width >= 2.0 {
             mon.sample(json!({"bound": [sc.lower, sc.upper], "encoding": format!("{lin:?}"), "new_variables": after.decision_variables.len() - before.decision_variables.len()}));
         }
-        // constant
-        if lin.constant != lo {
-            mon.violation("C12.constant", format!("constant {} but ceil(lower) = {lo}\n{}", lin.constant, ctx(&after, &lin)));
+        // smallest value of the expression: constant plus the negative coefficients (a bit with a negative
+        // weight is as good as its complement with a positive one; the statement fixes the value set only)
+        let least = lin.constant + lin.terms.iter().map(|t| t.coefficient).filter(|c| *c < 0.0).sum::<f64>();
+        if least != lo {
+            mon.violation("C12.constant", format!("smallest value of the expression (constant {} plus the negative coefficients) is {least} but ceil(lower) = {lo}\n{}", lin.constant, ctx(&after, &lin)));
         }
-        let new_vars: Vec<&v1::DecisionVariable> = after.decision_variables.iter().skip(before.decision_variables.len()).collect();
-        if after.decision_variables.len() < before.decision_variables.len() || after.decision_variables[..before.decision_variables.len()] != before.decision_variables[..] {
+        // new variables = those whose id the instance did not define before (where the SDK puts them in
+        // the list is not part of the property); the others must be unchanged
+        let old_ids: BTreeSet<u64> = before.decision_variables.iter().map(|v| v.id).collect();
+        let new_vars: Vec<&v1::DecisionVariable> = after.decision_variables.iter().filter(|v| !old_ids.contains(&v.id)).collect();
+        let kept: Vec<v1::DecisionVariable> = after.decision_variables.iter().filter(|v| old_ids.contains(&v.id)).cloned().collect();
+        if !crate::gen::same_variables(&kept, &before.decision_variables) {
             mon.violation("C12.existing-variables-changed", ctx(&after, &lin));
             return;
         }
@@ -299,11 +305,12 @@ impl Property for C12 {
         // coefficients: non-negative integers
         let mut cs: Vec<u64> = vec![];
         for t in &lin.terms {
-            if !(t.coefficient >= 0.0 && t.coefficient == t.coefficient.trunc() && t.coefficient < 9.0e15) {
-                mon.violation("C12.coefficient-not-a-nonnegative-integer", format!("coefficient {} of id {}\n{}", t.coefficient, t.id, ctx(&after, &lin)));
+            // a non-integer weight makes some bit pattern a non-integer
+            if !(t.coefficient == t.coefficient.trunc() && t.coefficient.abs() < 9.0e15) {
+                mon.violation("C12.coefficient-not-an-integer", format!("coefficient {} of id {}\n{}", t.coefficient, t.id, ctx(&after, &lin)));
                 return;
             }
-            cs.push(t.coefficient as u64);
+            cs.push(t.coefficient.abs() as u64);
         }
         let w = width as u64;
         let total: u64 = cs.iter().sum();
